@@ -438,3 +438,132 @@ def trans_core(pid, plan, tier, replay_file=None, models=True):
 
 for _p in TRANS_PLANS:
     REGISTRY[_p] = trans_check
+
+
+# ---------------------------------------------------------------------------
+# Client family (C16 C17 C18)
+import clifam as kf
+KC = kf.consts
+ABC = ('a', 'b', 'c')
+CLI_PLANS = {
+    'C16': {
+        'own': 'C16',
+        'models': {'quick': [('u2', KC(upd=(('a', 'b'), ('b',)), maxupd=1, flips=1, calls=3, fb=0, director=1))],
+                   'thorough': [('u3', KC(addrs=ABC, upd=(('a', 'b'), ('b', 'c')), init=('a', 'b'), maxupd=2, flips=1, calls=3, fb=0, director=1)),
+                                ('u2r', KC(policy='random', upd=(('a', 'b'), ('b',)), maxupd=2, flips=1, calls=4, fb=1, director=1)),
+                                ('u2l', KC(policy='lt', upd=(('a', 'b'), ('b',)), maxupd=2, flips=1, calls=3, fb=0, lats=(10, 30)))]},
+        'devs': [('stale', ['StaleProbeReinserts'], KC(upd=(('a', 'b'), ('b',)), maxupd=1, flips=0, calls=2, fb=0)),
+                 ('stalemap', ['ListFromStaleMap'], KC(upd=(('a', 'b'), ('b',)), maxupd=1, flips=0, calls=2, fb=0))],
+        'sims': [('rr', KC(addrs=ABC, upd=(('a', 'b'), ('b', 'c'), ('a', 'b', 'c'), ('c',)), init=('a', 'b'), maxupd=3, flips=2, calls=8, fb=1, director=2)),
+                 ('rnd', KC(addrs=ABC, policy='random', upd=(('a', 'b'), ('b', 'c'), ('a', 'b', 'c')), init=('a', 'b', 'c'), maxupd=3, flips=2, calls=8, fb=1, director=1)),
+                 ('lt', KC(addrs=ABC, policy='lt', upd=(('a', 'b'), ('b', 'c'), ('a', 'b', 'c')), init=('a', 'b', 'c'), maxupd=3, flips=2, calls=8, fb=0, lats=(10, 30)))],
+        'forms': ('call', 'go', 'rt', 'ctx', 'ping', 'stream'),
+    },
+    'C17': {
+        'own': 'C17',
+        'models': {'quick': [('rr3', KC(addrs=ABC, upd=(('a', 'b', 'c'),), init=('a', 'b', 'c'), maxupd=0, flips=1, calls=5, fb=0, callers=(1,))),
+                             ('lt2', KC(policy='lt', upd=(('a', 'b'),), maxupd=0, flips=1, calls=4, fb=0, lats=(10, 30), callers=(1,)))],
+                   'thorough': [('rr3', KC(addrs=ABC, upd=(('a', 'b', 'c'),), init=('a', 'b', 'c'), maxupd=0, flips=2, calls=6, fb=0)),
+                                ('lt3', KC(addrs=ABC, policy='lt', upd=(('a', 'b', 'c'),), init=('a', 'b', 'c'), maxupd=0, flips=1, calls=5, fb=0, lats=(10, 30), callers=(1,))),
+                                ('rnd3', KC(addrs=ABC, policy='random', upd=(('a', 'b', 'c'),), init=('a', 'b', 'c'), maxupd=0, flips=1, calls=4, fb=0))]},
+        'devs': [('cursor', ['CursorNotAdvanced'], KC(addrs=ABC, upd=(('a', 'b', 'c'),), init=('a', 'b', 'c'), maxupd=0, flips=0, calls=4, fb=0, callers=(1,))),
+                 ('maxmin', ['MaxInsteadOfMin'], KC(policy='lt', upd=(('a', 'b'),), maxupd=0, flips=0, calls=5, fb=0, lats=(10, 30), callers=(1,))),
+                 ('probeall', ['ProbeEveryCall'], KC(policy='lt', upd=(('a', 'b'),), maxupd=0, flips=0, calls=4, fb=0, lats=(10, 30), callers=(1,)))],
+        'sims': [('rr', KC(addrs=ABC, upd=(('a', 'b', 'c'),), init=('a', 'b', 'c'), maxupd=0, flips=2, calls=12, fb=0, callers=(1,))),
+                 ('rr4', KC(addrs=('a', 'b', 'c', 'd'), upd=(('a', 'b', 'c', 'd'),), init=('a', 'b', 'c', 'd'), maxupd=0, flips=1, calls=14, fb=0, callers=(1,))),
+                 ('rnd', KC(addrs=ABC, policy='random', upd=(('a', 'b', 'c'),), init=('a', 'b', 'c'), maxupd=0, flips=2, calls=12, fb=0, callers=(1,))),
+                 ('lt', KC(addrs=ABC, policy='lt', upd=(('a', 'b', 'c'),), init=('a', 'b', 'c'), maxupd=0, flips=2, calls=14, fb=0, lats=(10, 30), callers=(1,))),
+                 ('lt4', KC(addrs=('a', 'b', 'c', 'd'), policy='lt', upd=(('a', 'b', 'c', 'd'),), init=('a', 'b', 'c', 'd'), maxupd=0, flips=1, calls=16, fb=0, lats=(10, 30), callers=(1,)))],
+        'forms': ('call',),
+    },
+    'C18': {
+        'own': 'C18',
+        'models': {'quick': [('w2', KC(upd=(('a', 'b'),), maxupd=0, flips=2, calls=3, fb=1))],
+                   'thorough': [('w3', KC(upd=(('a', 'b'), ('b',)), maxupd=1, flips=2, calls=4, fb=1, callers=(1, 2, 3))),
+                                ('w2r', KC(policy='random', upd=(('a', 'b'),), maxupd=0, flips=3, calls=4, fb=1))]},
+        'live': {'quick': [('lw', KC(upd=(('a', 'b'),), maxupd=0, flips=1, calls=2, fb=1))],
+                 'thorough': [('lw3', KC(upd=(('a', 'b'),), maxupd=0, flips=2, calls=3, fb=1, callers=(1, 2, 3)))]},
+        'devs': [('lostwake', ['LostWakeup', 'DetectNoWake'], KC(upd=(('a', 'b'),), maxupd=0, flips=1, calls=2, fb=0), 'live'),
+                 ('detectnowake', ['DetectNoWake'], KC(upd=(('a', 'b'),), maxupd=0, flips=0, calls=2, fb=1)),
+                 ('nowakeclose', ['NoWakeOnClose'], KC(upd=(('a', 'b'),), maxupd=0, flips=0, calls=2, fb=0)),
+                 ('waitafterclose', ['WaitAfterClose'], KC(upd=(('a', 'b'),), maxupd=0, flips=0, calls=2, fb=0)),
+                 ('timeoutleak', ['TimeoutLeaks'], KC(upd=(('a', 'b'),), maxupd=0, flips=0, calls=2, fb=0))],
+        'sims': [('w', KC(upd=(('a', 'b'), ('b',)), maxupd=1, flips=3, calls=8, fb=2, callers=(1, 2, 3))),
+                 ('wr', KC(policy='random', upd=(('a', 'b'),), maxupd=0, flips=3, calls=8, fb=2, callers=(1, 2, 3))),
+                 ('w3', KC(addrs=ABC, upd=(('a', 'b', 'c'),), init=('a', 'b', 'c'), maxupd=0, flips=4, calls=8, fb=1, callers=(1, 2)))],
+        'forms': ('call', 'ctx', 'go', 'rt', 'ping', 'stream'),
+    },
+}
+
+def cli_check(pid, tier, replay_file=None):
+    t0 = time.time()
+    plan = CLI_PLANS[pid]
+    sd = seed()
+    assumptions = ['the Client runs over a scripted RoundTripper (target health, probe completion and call completion are driven by the schedule)',
+                   'detector passes are released one by one through the k.detect.gate hook (the real 100 ms ticker still paces them)',
+                   'estimate arithmetic (documented moving average) is re-computed by the harness from the logged inputs; the specification decides which target may be picked',
+                   'the order of the live list (Go map iteration order) is not logged: the trace specification searches the orders that explain the picks']
+    violations = []
+    cov = {'model_runs': [], 'deviation_runs': [], 'states': 0, 'transitions': 0, 'traces_validated_against_impl': 0, 'samples': [],
+           'schedules_replayed': 0, 'trace_events': 0}
+    schedules = []
+    if replay_file:
+        schedules = [json.load(open(replay_file))['schedule']]
+    else:
+        if not os.environ.get('VERIF_SKIP_MC'):
+            for tag, c in plan['models'].get(tier, plan['models']['quick']):
+                res = kf.model_check('%s_%s' % (pid, tag), c, timeout=3000 if tier == 'thorough' else 600)
+                cov['model_runs'].append({'instance': tag, 'constants': res['consts'], 'distinct_states': res['distinct'], 'states_generated': res['states'],
+                                          'depth': res['depth'], 'complete': res['complete'], 'wall_s': round(res['wall'], 1)})
+                cov['states'] += res['distinct']; cov['transitions'] += res['states']
+                if res['violated']:
+                    raise Machinery('the intended Client design (Dev = {}) violates %s in instance %s\n%s' % (res['violated'], tag, res['out'][-2500:]))
+                if not res['complete']:
+                    raise Machinery('model checking of %s did not complete' % tag)
+            for tag, c in plan.get('live', {}).get(tier, plan.get('live', {}).get('quick', [])):
+                res = kf.model_check('%s_%s' % (pid, tag), c, timeout=3000 if tier == 'thorough' else 600, live=True)
+                cov['model_runs'].append({'instance': tag + ' (liveness, fair library steps)', 'constants': res['consts'], 'distinct_states': res['distinct'],
+                                          'states_generated': res['states'], 'complete': res['complete'], 'wall_s': round(res['wall'], 1)})
+                cov['states'] += res['distinct']; cov['transitions'] += res['states']
+                if res['violated'] or 'Temporal properties were violated' in res['out']:
+                    raise Machinery('the intended Client design violates a liveness property in instance %s\n%s' % (tag, res['out'][-2500:]))
+        forms = plan.get('forms', ('call',))
+        for j, d in enumerate(plan['devs']):
+            tag, dev, c = d[0], d[1], d[2]
+            s, res = kf.deviation_schedule('%s_%s' % (pid, tag), c, dev, forms[j % len(forms)], live=(len(d) > 3))
+            cov['deviation_runs'].append({'deviation': dev, 'violated_in_model': res['violated'], 'states_generated': res['states'],
+                                          'schedule_len': len(s['steps']) if s else 0})
+            if s is None:
+                raise Machinery('deviation %s produced no counterexample (vacuity)' % dev)
+            schedules.append(s)
+        nsim = 30 if tier == 'quick' else 300
+        for j, (tag, c) in enumerate(plan['sims']):
+            ss, res = kf.sim_schedules('%s_%s' % (pid, tag), c, nsim, 50, sd * 1000 + j, forms)
+            schedules.extend(ss)
+    rp, crashes = kf.replay(schedules, pid)
+    for cr in crashes:
+        first = cr['panic'].splitlines()[0] if cr['panic'] else 'crash'
+        violations.append({'property': pid, 'signature': 'crash:' + first[:80], 'summary': '%s: the process crashed inside hslam/rpc: %s' % (pid, first),
+                           'schedule': None, 'finding': {'kind': 'crash', 'panic': cr['panic']}, 'trace': []})
+    for gk, (tracefile, results, ss) in sorted(rp.items()):
+        cov['schedules_replayed'] += len(ss)
+        accepted, findings, stats = kf.validate(tracefile, ss[0]['cfg'], pid, [s['name'] for s in ss])
+        cov['traces_validated_against_impl'] += accepted
+        cov['trace_events'] += stats['events']
+        for f in findings:
+            owner = kf.OWN.get(f['what'], pid) if f['kind'] == 'invariant' else pid
+            sig = '%s:%s@%s' % (f['kind'], f['what'] if f['kind'] == 'invariant' else 'rejected', f['event'].get('ev', ''))
+            summary = '%s%s: %s %s at event %s (trace %s)' % ('' if owner == pid else '[invariant owned by %s] ' % owner, owner, f['what'], f.get('detail', ''),
+                                                             json.dumps({k: f['event'].get(k) for k in ('ev', 'c', 'a', 'b', 's', 'seq', 'k', 'calls')}), f['name'])
+            sch = ss[f['trace']] if f['trace'] < len(ss) else None
+            violations.append({'property': owner, 'signature': sig, 'summary': summary, 'schedule': sch,
+                               'finding': {k: f[k] for k in ('kind', 'what', 'event', 'pos_in_trace', 'name')}, 'trace': f['trace_events']})
+        if len(cov['samples']) < 3 and ss:
+            tr = cf.split_traces(tracefile)
+            cov['samples'].append({'schedule': ss[0]['name'], 'steps': ss[0]['steps'][:40], 'trace_excerpt': [json.loads(x) for x in tr[0][:25]] if tr else []})
+    cov['rule'] = ('states/transitions: exhaustive TLC runs of Client.tla (Dev={}; liveness under weak fairness of library steps); traces: executions of the real '
+                   'rpc.Client over a scripted RoundTripper driven by TLC behaviours, each accepted by ClientTrace with the invariants checked in every state')
+    return finish(pid, tier, 'model_checking', cov, t0, violations, [], assumptions)
+
+for _p in CLI_PLANS:
+    REGISTRY[_p] = cli_check
